@@ -294,15 +294,25 @@ def run(chk, repo):
         ok9 = f0 is not None and f1 is not None and f0 == Aff.sym('pos') and f1 == Aff.sym('pos') + 3
     chk.ob('C09.i', 'SECT location = [pos, pos + 3)', cs.where, ok9, f"SECT pseudo-variant is placed at {got9}, not on the three bases of the Sec codon [pos, pos + 3)",
            key=cs.qual + '::location', fn=cs.qual)
-    ids = [n for n in ast.walk(ncs) if isinstance(n, ast.JoinedStr) and any(isinstance(v, ast.Constant) and 'SECT-' in str(v.value) for v in n.values)]
+    # the identifier, by partial evaluation (module constants folded, locals substituted): 'SECT-' + (gene coordinate of pos) + 1
+    from sa.peval import PEval, repo_consts, show as _show9
+    pe9 = PEval(resolve_const=repo_consts(repo, cs.module), record=('VariantRecord',))
+    outs9 = [o for o in pe9.run(cs.node, {}) if o.kind == 'return']
     ok9 = False
-    if len(ids) == 1:
-        fv = [v for v in ids[0].values if isinstance(v, ast.FormattedValue)]
-        stmt9 = next(s_ for s_ in ast.walk(ncs) if isinstance(s_, ast.stmt) and s_ is not ncs and _s9.own_stmt(s_) and any(x is ids[0] for x in ast.walk(s_)))
-        if len(fv) == 1:
-            t9 = unparse(_s9.expand_names(ncs, stmt9, fv[0].value, chains=chains9, allow_calls=('coordinate_genomic_to_gene', 'coordinate_transcript_to_genomic')))
-            pa9 = [a.arg for a in ncs.args.args]
-            want9 = '{0}.coordinate_genomic_to_gene({0}.coordinate_transcript_to_genomic({2}, {1}), {0}.transcripts[{1}].gene_id) + 1'.format(*pa9) if len(pa9) == 3 else None
-            ok9 = want9 is not None and re.sub(r'\s', '', t9) in (re.sub(r'\s', '', want9), re.sub(r'\s', '', '1 + ' + want9[:-4]))
+    got_id = None
+    pa9 = [a.arg for a in cs.node.args.args]
+    if len(outs9) == 1 and len(pa9) == 3:
+        vr9 = [c for c in outs9[0].calls if c['name'] == 'VariantRecord']
+        if len(vr9) == 1:
+            kw9 = dict(vr9[0]['kwargs'])
+            # positional form VariantRecord(location, ref, alt, _type, _id, attrs)
+            for k_, v_ in zip(('location', 'ref', 'alt', '_type', '_id', 'attrs'), vr9[0]['args']):
+                kw9.setdefault(k_, v_)
+            got_id = _show9(kw9.get('_id'))
+            want9 = '{0}.coordinate_genomic_to_gene({0}.coordinate_transcript_to_genomic({2}, {1}), {0}.transcripts[{1}].gene_id)'.format(*pa9)
+            m9 = re.match(r"^f'SECT-\{(.*)\}'$", got_id or '')
+            inner = re.sub(r'\s', '', m9.group(1)) if m9 else None
+            w9 = re.sub(r'\s', '', want9)
+            ok9 = inner in (w9 + '+1', '(' + w9 + ')+1', '1+' + w9) and kw9.get('_type') == 'SECT'
     chk.ob('C09.i', "SECT id = 'SECT-' + (gene coordinate of the codon start + 1)", cs.where, ok9,
-           'the SECT identifier is not derived from the gene coordinate of the first base of the codon (1-based)', key=cs.qual + '::id', fn=cs.qual)
+           f"the SECT identifier is not derived from the gene coordinate of the first base of the codon (1-based): {got_id}", key=cs.qual + '::id', fn=cs.qual)
